@@ -17,6 +17,10 @@ pub struct Unit {
     pub level: Level,
     pub len: usize,
     pub full_alpha: bool,
+    /// sentence mode: 0 = token tree; 1 = every generated sentence; 2 = sentences and every
+    /// vector within one edit operation of a sentence
+    #[serde(default)]
+    pub sent: usize,
 }
 
 pub fn sig_level(l: &Level) -> String {
@@ -97,35 +101,48 @@ impl Check for C01 {
         "model_checking"
     }
     fn units(&self, tier: Tier, seed: u64) -> Vec<Value> {
-        let mut out = vec![];
-        let mut push = |levels: Vec<Level>, len: usize, full: bool| {
-            for l in levels {
-                out.push(serde_json::to_value(Unit { level: l, len, full_alpha: full }).unwrap());
-            }
-        };
+        let mut out: Vec<Value> = vec![];
+        macro_rules! push {
+            ($levels:expr, $len:expr, $full:expr) => {
+                for l in $levels {
+                    out.push(serde_json::to_value(Unit { level: l, len: $len, full_alpha: $full, sent: 0 }).unwrap());
+                }
+            };
+        }
         let mut tails = vec![Tail::None];
         tails.extend(fam::pos_tails());
         match tier {
             Tier::Quick => {
                 let mut t2 = tails.clone();
                 t2.extend(fam::cmd_tails(seed, true, true));
-                push(fam::conventional(2, &t2, seed), 3, false);
+                push!(fam::conventional(2, &t2, seed), 3, false);
                 // one item, deeper, full alphabet (aliases, clusters, lone dash, empty inline
                 // values): length 4 without commands, length 3 with them
-                push(fam::conventional(1, &tails, seed + 1), 4, true);
-                push(fam::conventional(1, &fam::cmd_tails(seed, true, true), seed + 1), 3, true);
+                push!(fam::conventional(1, &tails, seed + 1), 4, true);
+                push!(fam::conventional(1, &fam::cmd_tails(seed, true, true), seed + 1), 3, true);
                 // fallback_to_usage on every level: only a line without any item may print usage
-                push(with_usage_fallback(fam::conventional(2, &t2, seed + 2)).into_iter().step_by(5).collect(), 3, false);
+                push!(with_usage_fallback(fam::conventional(2, &t2, seed + 2)).into_iter().step_by(5).collect::<Vec<_>>(), 3, false);
+                // long vectors: every sentence the grammar generates (all definitions) and every
+                // vector within one edit operation of a sentence (every fourth definition)
+                for (i, l) in fam::conventional(2, &t2, seed + 3).into_iter().enumerate() {
+                    out.push(serde_json::to_value(Unit { level: l, len: 3, full_alpha: false, sent: if i % 4 == 0 { 2 } else { 1 } }).unwrap());
+                }
             }
             Tier::Thorough => {
                 let mut t2 = tails.clone();
                 t2.extend(fam::cmd_tails(seed, true, true));
-                push(fam::conventional(2, &t2, seed), 4, false);
-                push(fam::conventional(2, &t2, seed + 1), 3, true);
-                push(fam::conventional(1, &t2, seed + 2), 5, true);
+                push!(fam::conventional(2, &t2, seed), 4, false);
+                push!(fam::conventional(2, &t2, seed + 1), 3, true);
+                push!(fam::conventional(1, &t2, seed + 2), 5, true);
                 let small = vec![Tail::None, fam::pos(&[PosKind::Opt]), fam::pos(&[PosKind::Req, PosKind::Many]), fam::cmd_tails(seed, false, false)[1].clone()];
-                push(fam::conventional(3, &small, seed + 3), 3, false);
-                push(with_usage_fallback(fam::conventional(2, &t2, seed + 2)), 3, false);
+                push!(fam::conventional(3, &small, seed + 3), 3, false);
+                push!(with_usage_fallback(fam::conventional(2, &t2, seed + 2)), 3, false);
+                for l in fam::conventional(2, &t2, seed + 3) {
+                    out.push(serde_json::to_value(Unit { level: l, len: 3, full_alpha: false, sent: 2 }).unwrap());
+                }
+                for (i, l) in fam::conventional(3, &small, seed + 4).into_iter().enumerate() {
+                    out.push(serde_json::to_value(Unit { level: l, len: 3, full_alpha: false, sent: if i % 3 == 0 { 2 } else { 1 } }).unwrap());
+                }
             }
         }
         out
@@ -142,6 +159,33 @@ impl Check for C01 {
         let model = Model::new(&u.level);
         let alpha = alphabet(&u.level, if u.full_alpha { AlphaStyle::Full } else { AlphaStyle::Compact });
         let env = Env::new();
+        if u.sent > 0 {
+            // sentences and their one-edit neighbourhood; vectors short enough for the token
+            // tree are left to it, duplicates are run once
+            let mut seen: std::collections::HashSet<Vec<Tok>> = std::collections::HashSet::new();
+            let sents = crate::sent::sentences(&u.level, true);
+            ctx.count_n("sentences-generated", sents.len() as u64);
+            let mut longest = 0;
+            for s in &sents {
+                longest = longest.max(s.len());
+                let mut go = |v: Vec<Tok>, ctx: &mut Ctx| {
+                    if v.len() <= u.len || !seen.insert(v.clone()) {
+                        return;
+                    }
+                    ctx.begin_case(|| json!({"argv": v}));
+                    ctx.s.evaluations += 1;
+                    ctx.s.states += 1;
+                    ctx.s.transitions += 1;
+                    judge("C01", &u.level, unit, &model, &p, &v, &env, ctx);
+                };
+                go(s.clone(), ctx);
+                if u.sent >= 2 {
+                    crate::sent::deviations(s, &alpha, &mut |v| go(v, ctx));
+                }
+            }
+            ctx.count(&format!("definitions-whose-longest-sentence-has-{:02}-items", longest));
+            return;
+        }
         tree(&alpha, u.len, &mut |argv| {
             ctx.begin_case(|| json!({"argv": argv}));
             ctx.s.evaluations += 1;
@@ -168,7 +212,7 @@ impl Check for C01 {
         judge("C01", &u.level, unit, &model, &p, &argv, &Env::new(), ctx);
     }
     fn rule(&self) -> String {
-        "every definition of the conventional family (all ordered tuples of item kinds x tails, naming styles rotated by seed) x every vector of the token tree Sigma^{<=L} (Sigma = every declared spelling, inline forms, words, `--`, unknown names, command names); a state is a (definition, vector) node, a transition appends one token; each node is judged by the reference scanner (accept+value / reject) against run_inner; non-trivial = node judged by the model (not in the unspecified region) and not the empty vector when rejected; nodes are distinct by construction (a tree has no converging paths)".into()
+        "every definition of the conventional family (all ordered tuples of item kinds x tails, naming styles rotated by seed) x every vector of the token tree Sigma^{<=L} (Sigma = every declared spelling, inline forms, words, `--`, unknown names, command names); a state is a (definition, vector) node, a transition appends one token; plus, for long vectors, every sentence the grammar generates (all legal occurrence counts, spellings cycled, declaration and reverse order, words after / before the named items and behind `--`, every command and alias recursively) and every vector within ONE edit operation of a sentence (insert or replace by any token of Sigma at any position, delete, duplicate, swap neighbours); each node is judged by the reference scanner (accept+value / reject) against run_inner; non-trivial = node judged by the model (not in the unspecified region) and not the empty vector when rejected; nodes are distinct by construction (a tree has no converging paths)".into()
     }
     fn bounds(&self, tier: Tier) -> Value {
         match tier {
